@@ -408,11 +408,14 @@ impl Rig {
     }
 
     /// run the status timer's step (Server::send_client_stats) on the real server, then pop everything its queue holds
-    pub fn publish_event(&mut self) -> Value {
+    pub fn publish_event(&mut self) -> Value { self.publish_step(true) }
+
+    /// ... `drain` = false: the queue is left as it is (a reporter that is slow or stalled), so that it fills up
+    pub fn publish_step(&mut self, drain: bool) -> Value {
         let panic = match self.server.as_mut() { Some(s) => guarded(|| s.verif_send_client_stats()).err(), None => Some("server gone".to_string()) };
         let (mut snapshots, mut entries) = (0u64, 0u64);
         let mut sum = [0u64; 5];   // valid, invalid, responses, bytes, failed
-        while let Some(list) = self.stats_queue.pop() {
+        while let Some(list) = if drain { self.stats_queue.pop() } else { None } {
             snapshots += 1;
             for c in list {
                 entries += 1;
@@ -424,7 +427,7 @@ impl Rig {
             }
         }
         let post_zero = match self.server.as_ref() { Some(s) => { let st = s.verif_stats(); st.total_valid_requests() == 0 && st.total_invalid_requests() == 0 && st.total_responses_sent() == 0 && st.total_unique_clients() == 0 }, None => false };
-        json!({"ev": "publish", "client_stats": self.cfg.client_stats, "panic": panic.is_some(), "snapshots": snapshots, "entries": entries,
+        json!({"ev": "publish", "client_stats": self.cfg.client_stats, "drain": drain, "qcap": 4, "panic": panic.is_some(), "panic_msg": panic.clone().unwrap_or_default(), "snapshots": snapshots, "entries": entries,
                "valid": sum[0], "invalid": sum[1], "responses": sum[2], "bytes": sum[3], "failed": sum[4], "post_zero": post_zero})
     }
 
